@@ -22,7 +22,7 @@ from harness import ops
 from harness import oracles
 from harness import reads
 
-DEPS = checks_seq.MODEL + ['Model/Reads.v', 'Spec/ApiSpec.v', 'Proofs/C08.v', 'Proofs/C09.v', 'Proofs/C11.v']
+DEPS = checks_seq.MODEL + ['Model/Conc.v', 'Model/ConcTree.v', 'Model/ConcAll.v', 'Model/Reads.v', 'Spec/ApiSpec.v', 'Proofs/C08.v', 'Proofs/C09.v', 'Proofs/C11.v']
 BUDGET = {'quick': (8, 36), 'thorough': (240, 40)}        # histories, requests per history (each followed by ~250 reads)
 
 
@@ -201,10 +201,25 @@ def run(pid, tier, out):
                         'ops': [checks_seq.op_json(o) for o in b['ops']]} for b in bs)
         except Exception as exc:      # noqa
             corr_error = corr_error or ('scenarios: %s' % str(exc)[-400:])
+    # interleaved writes (harness/conc_extra.py, own process): every executed schedule is replayed in Model/ConcAll.v; oracles:
+    # one allocation record per (consumer, provider, class) - otherwise the views of a consumer's holdings disagree -, no 5xx,
+    # complete effect of accepted writes
+    from harness import conc_extra
+    cx = conc_extra.call('C11', tier)
+    if cx.get('error') or cx.get('model_error'):
+        corr_error = (corr_error or '') + ' interleaving stream: %s' % (cx.get('error') or cx.get('model_error'))[-600:]
     proof_broken = (not ps['ok']) or bool(hyg) or not ok_tr
     tie_broken = bool(bad) or bool(wdis) or corr_error is not None
 
     found = False
+    seen_cx = set()
+    for v in cx['violations']:
+        key = (v['payload']['scenario']['name'], v['payload']['check'])
+        if key in seen_cx or len(seen_cx) >= 3:
+            continue
+        seen_cx.add(key)
+        found = True
+        out.violation(v['payload'], v['text'])
     for h in ohits[:3]:
         found = True
         out.violation({'kind': 'history', 'ops': h['ops'], 'step': h['step'],
@@ -251,7 +266,7 @@ def run(pid, tier, out):
                    'answered 200 with rows) + %d write histories x 30 requests compared with the model' % (n_hist, n_ops, len(cases)),
            'samples': [{'read_kinds': {('%s/%d/%s' % k): v for k, v in sorted(cover.items())[:12]}}],
            'traces_validated_against_impl': (n_hist if not bad and not corr_error else 0) + len(cases) - len(wdis),
-           'model_impl_disagreements': len(bad) + len(wdis), 'correspondence_error': corr_error,
+           'model_impl_disagreements': len(bad) + len(wdis), 'correspondence_error': corr_error, 'interleaving_stream': dict(cx.get('stats') or {}, violations=len(cx['violations'])),
            'read_coverage': {('%s/%d/%s' % k): v for k, v in sorted(cover.items())},
            'write_status_histogram': {str(k): v for k, v in sorted(wstats['status'].items())},
            'oracle_hits': len(ohits)}
@@ -260,6 +275,11 @@ def run(pid, tier, out):
 
 
 def replay(pid, path, out):
+    if json.load(open(path)).get('kind') == 'schedule-extra':
+        from harness import conc_extra
+        for v in conc_extra.call('C11', 'quick', replay_path=path)['violations'][:1]:
+            out.violation(v['payload'], v['text'])
+        return
     d = json.load(open(path))
     if d.get('kind') in ('history', 'read') and d.get('ops'):
         ops_ = [checks_seq.tuple_op(o) for o in d['ops']]
